@@ -75,6 +75,7 @@ func (n *SimNet) Send(from int, toPub string, payload []byte, typ int) error {
 	}
 	deliver := func() { w.Nodes[to].deliver(from, typ, cp, idx) }
 	w.Sim.After(lat, "net", fmt.Sprintf("deliver#%d %d->%d %x", idx, from, to, typ), deliver)
+	w.twinRequest(from, to, typ, cp, lat)
 	if dup {
 		w.Sim.After(2*lat+ms(10), "net", fmt.Sprintf("deliver-dup#%d %d->%d %x", idx, from, to, typ), deliver)
 	}
